@@ -14,7 +14,15 @@ import (
 
 type wset struct {
 	all  bool
+	why  string
 	keys map[string]bool
+}
+
+func (w *wset) setAll(why string) {
+	if !w.all {
+		w.all = true
+		w.why = why
+	}
 }
 
 func (w *wset) list() []string {
@@ -40,6 +48,7 @@ func (w *wset) merge(o *wset) bool {
 	}
 	if o.all {
 		w.all = true
+		w.why = "via callee: " + o.why
 		return true
 	}
 	ch := false
@@ -124,7 +133,7 @@ func (p *Prog) computeWriteSets() {
 	// implementations of interface methods, by method name
 	implByName := map[string][]*ssa.Function{}
 	for _, fn := range fns {
-		if fn.Signature.Recv() != nil && fn.Synthetic == "" {
+		if fn.Signature.Recv() != nil && fn.Synthetic == "" && !strings.Contains(fn.String(), "/mock_") {
 			implByName[fn.Name()] = append(implByName[fn.Name()], fn)
 		}
 	}
@@ -140,7 +149,7 @@ func (p *Prog) computeWriteSets() {
 				case *ssa.Store:
 					k := staticKey(x.Addr)
 					if k == "*" {
-						w.all = true
+						w.setAll("store through untracked address in " + fn.Name())
 					} else {
 						w.add(k)
 					}
@@ -175,7 +184,17 @@ func (p *Prog) computeWriteSets() {
 				}
 				if cc.IsInvoke() {
 					m := cc.Method
-					if m.Pkg() != nil && purePkgs[m.Pkg().Path()] {
+					if m.Pkg() != nil && (purePkgs[m.Pkg().Path()] || !strings.HasPrefix(m.Pkg().Path(), repoModule) || opaqueIfacePkg(m.Pkg().Path())) {
+						if fc := p.ContractForMethod(m); fc != nil {
+							p.addContractFrame(w, fc)
+							continue
+						}
+						sig := m.Type().(*types.Signature)
+						for i := 0; i < sig.Params().Len(); i++ {
+							for _, k := range argKeys(sig.Params().At(i).Type()) {
+								w.add(k)
+							}
+						}
 						continue
 					}
 					if m.Pkg() == nil { // error.Error
@@ -194,7 +213,7 @@ func (p *Prog) computeWriteSets() {
 						}
 					}
 					if !found || !strings.HasPrefix(m.Pkg().Path(), repoModule) {
-						w.all = true
+						w.setAll("interface call " + m.FullName() + " in " + fn.Name())
 					}
 					continue
 				}
@@ -215,8 +234,13 @@ func (p *Prog) computeWriteSets() {
 						calls[fn] = append(calls[fn], cf)
 					}
 				default:
-					// function value of unknown origin
-					w.all = true
+					// function value of unknown origin, unless loaded from a field declared pure
+					if u, ok := cc.Value.(*ssa.UnOp); ok {
+						if k := staticKey(u.X); k != "" && p.pureFields[k] {
+							continue
+						}
+					}
+					w.setAll("call of function value in " + fn.Name())
 				}
 			}
 		}
@@ -242,12 +266,12 @@ func stripRecv(s *types.Signature) *types.Signature {
 
 func (p *Prog) addContractFrame(w *wset, fc *FuncContract) {
 	if fc.ModAll {
-		w.all = true
+		w.setAll("contract modifies * of " + fc.Key())
 		return
 	}
 	if len(fc.Modifies) > 0 {
 		// resolved precisely only at call sites; be conservative here
-		w.all = true
+		w.setAll("contract with modifies clause: " + fc.Key())
 	}
 }
 
@@ -258,7 +282,7 @@ func (p *Prog) addCallee(w *wset, caller, callee *ssa.Function, cc *ssa.CallComm
 				calls[caller] = append(calls[caller], callee)
 				return
 			}
-			w.all = true
+			w.setAll("contract with modifies clause: " + fc.Key())
 		}
 		return
 	}
@@ -269,7 +293,18 @@ func (p *Prog) addCallee(w *wset, caller, callee *ssa.Function, cc *ssa.CallComm
 		calls[caller] = append(calls[caller], callee)
 		return
 	}
-	if isPurePkg(callee) {
+	if !isRepoFunc(callee) {
+		// library function: reaches repository state only through its arguments and closures passed to it
+		for _, a := range cc.Args {
+			switch x := a.(type) {
+			case *ssa.MakeClosure:
+				if cf, ok := x.Fn.(*ssa.Function); ok {
+					calls[caller] = append(calls[caller], cf)
+				}
+			case *ssa.Function:
+				calls[caller] = append(calls[caller], x)
+			}
+		}
 		sig := callee.Signature
 		if sig.Recv() != nil {
 			for _, k := range argKeys(sig.Recv().Type()) {
@@ -283,5 +318,5 @@ func (p *Prog) addCallee(w *wset, caller, callee *ssa.Function, cc *ssa.CallComm
 		}
 		return
 	}
-	w.all = true
+	w.setAll("external " + callee.String() + " called from " + caller.Name())
 }
